@@ -1,3 +1,5 @@
 import PfVerif.Audit.Tool
 import PfVerif.Props.C02
+import PfVerif.Lemmas.C02Hooks
 #audit_module PfVerif.Props.C02
+#audit_module_ns PfVerif.Lemmas.C02Hooks PfVerif.C02Hooks
